@@ -842,8 +842,9 @@ def rule_bounds(repo, col):
     upper = {}
     unknown_tests = []
     # a rejecting branch returns, or sets the message the function returns
-    returned = {r.value.id for r in body_walk(f) if isinstance(r, ast.Return)
-                and isinstance(r.value, ast.Name)}
+    returned = {x.id for r in body_walk(f) if isinstance(r, ast.Return)
+                and r.value is not None for x in ast.walk(r.value)
+                if isinstance(x, ast.Name)}
 
     def _is_message(v):
         return isinstance(v, ast.JoinedStr) or (
